@@ -178,6 +178,22 @@ static void check_for_keyword(struct instr *instr_buffer, char *all_opd,
 }
 
 /**
+ * checks that the operand string @param opd holds the register name
+ * @param reg and nothing but blanks around it ("rbx+1" or "rbx]" do not)
+ */
+static bool is_only_reg(const char *opd, const char *reg) {
+  size_t len = strlen(reg);
+  while (*opd == ' ')
+    opd++;
+  if (len == 0 || strncmp(opd, reg, len) != 0)
+    return false;
+  opd += len;
+  while (*opd == ' ')
+    opd++;
+  return *opd == '\0';
+}
+
+/**
  * Given an instance of @param instr_buffer, checks the operand type of
  * @param opds at operand postion @param opd_pos to get the register if
  * operand is not an immediate.
@@ -202,6 +218,9 @@ static int check_operand_type(struct instr *instr_buffer, char *all_opd,
     get_reg_str(all_opd, instr_buffer->opd[opd_pos].str);
     if (instr_buffer->opd[opd_pos].type == 'm')
       return mem_tok(instr_buffer, all_opd, opd_pos);
+    // a register operand is the register name and nothing else
+    FAIL_IF_VAR(!is_only_reg(all_opd, instr_buffer->opd[opd_pos].str),
+                "invalid register operand: %s\n", all_opd);
     return EXIT_SUCCESS;
   // operand type is not found
   default:
